@@ -50,6 +50,8 @@ def noisy_world(seed, n_chroms=3):
     # noise: reads with shifted junctions beyond tolerance, extended ends (novel models reaching beyond their gene)
     for g in list(w.genes):
         for t in g.hidden[:1]:
+            if t.kind == "no-strand-evidence":
+                continue          # this locus must stay without tails
             ex = list(t.exons)
             for _ in range(4):
                 ext = [(ex[0][0] - rng.randint(150, 400), ex[0][1])] + ex[1:-1] + [(ex[-1][0], ex[-1][1] + rng.randint(150, 400))]
